@@ -520,6 +520,9 @@ func (fv *FV) doReturn(st *State, results []Term, pos token.Pos) {
 		return
 	}
 	env := fv.postEnv(st, results)
+	// reachability cover: a contradictory context (an inconsistent callee contract, a wrong axiom) would discharge
+	// everything below; `unsat` here is a failure of the check, not of the code
+	fv.obligeSat(st, fmt.Sprintf("vacuity.return.r%d", k), "this return is reachable under everything assumed on the way")
 	if fv.fc.PanicsWhen != nil {
 		fv.oblige(st, fmt.Sprintf("panic.missing.r%d", k), not(fv.panicsEntry()), "the function must panic when "+fv.fc.PanicsSrc+" (normal return reached)", nil, pos)
 	}
@@ -797,6 +800,7 @@ type loopEffects struct {
 	comps   map[string]bool // heap components written somewhere in the body
 	targets []effTarget
 	allocs  bool
+	body    *ast.BlockStmt
 }
 
 type effTarget struct {
@@ -899,6 +903,7 @@ func (fv *FV) execFor(st *State, x *ast.ForStmt, label string) *State {
 			end = fv.execStmt(end, x.Post, "")
 		}
 		fv.ghostAt(end, fmt.Sprintf("loop %d end", ord), x.Pos())
+		fv.obligeSat(end, fmt.Sprintf("vacuity.loop%d.%s", ord, phase), "the end of the loop body is reachable under everything assumed on the way")
 		fv.checkInvariants(end, ls, ord, phase, x.Pos(), scopePos)
 		if variant0 != "" {
 			v1 := fv.spec(fv.localEnv(end, scopePos), ls.Decreases).S
@@ -1072,6 +1077,7 @@ func (fv *FV) execRange(st *State, x *ast.RangeStmt, label string) *State {
 			end.vars[keyObj] = next
 		}
 		fv.ghostAt(end, fmt.Sprintf("loop %d end", ord), x.Pos())
+		fv.obligeSat(end, fmt.Sprintf("vacuity.loop%d.%s", ord, phase), "the end of the loop body is reachable under everything assumed on the way")
 		fv.checkInvariants(end, ls, ord, phase, x.Pos(), scopePos)
 	}
 	// after the loop the range variables are out of scope
@@ -1085,7 +1091,7 @@ func (fv *FV) execRange(st *State, x *ast.RangeStmt, label string) *State {
 
 // effects computes, syntactically, what a loop body may change.
 func (fv *FV) effects(st *State, nodes []ast.Node, body *ast.BlockStmt) *loopEffects {
-	eff := &loopEffects{locals: map[types.Object]bool{}, comps: map[string]bool{}}
+	eff := &loopEffects{locals: map[types.Object]bool{}, comps: map[string]bool{}, body: body}
 	addLocal := func(e ast.Expr, define bool) {
 		id, ok := ast.Unparen(e).(*ast.Ident)
 		if !ok || id.Name == "_" {
@@ -1377,6 +1383,8 @@ func (fv *FV) applyEffects(pre, head *State, eff *loopEffects) {
 			case *ast.Ident:
 				if o := fv.info.ObjectOf(y); o != nil && eff.locals[o] {
 					inv = false
+				} else if o != nil && eff.body != nil && o.Pos() >= eff.body.Lbrace && o.Pos() <= eff.body.Rbrace {
+					inv = false // declared inside the body: no value at the loop head
 				}
 			case *ast.SelectorExpr:
 				if sel := fv.info.Selections[y]; sel != nil && sel.Kind() == types.FieldVal {
